@@ -218,6 +218,28 @@ def run(ctx):
                             key='PROV:%s:fragment-fresh-cache' % RECV)
 
     cache_threading(ctx, 'C14.5-cache-threading')
+    # every place that accepts an atom accepts a cached-atom reference
+    ctx.rule('C14.3-atom-positions', 'under a distribution header an atom may be written as ATOM_CACHE_REF wherever an atom is expected: every tag dispatch of the (cache-aware) owned decoder '
+             'that lists the inline atom tags lists tag 82 as well', floor=1)
+    ATOM_TAGS = {100, 115, 118, 119}
+    n_disp = 0
+    for p_ in sorted(q for q in ctx.F.bodies if q.startswith(DEC) and ctx.F.bodies[q]['kind'] in ('Fn', 'Closure') and 'borrowed' not in q):
+        DB = P.B(p_)
+        for bb in sorted(DB.live_blocks()):
+            t = DB.blocks[bb]['t']
+            if t['k'] != 'switch' or t.get('dty') != 'u8':
+                continue
+            vals = {v for v, _ in t['cases']}
+            if len(vals & ATOM_TAGS) < 2:
+                continue
+            n_disp += 1
+            inst = '%s:bb%d' % (p_.rsplit('::', 1)[1], bb) if n_disp > 1 else p_.rsplit('::', 1)[1]
+            if 82 in vals:
+                ctx.ok('C14.3-atom-positions', inst, 'dispatches the atom tags %s and ATOM_CACHE_REF' % sorted(vals & ATOM_TAGS), ctx.where(DB, bb))
+            else:
+                ctx.bad('C14.3-atom-positions', inst, '%s accepts the inline atom tags %s but not ATOM_CACHE_REF (82): under a distribution header, where the sender (this library\'s encoder included) writes atoms as cache references, '
+                        'the term it parses cannot be decoded' % (p_.rsplit('::', 1)[1], sorted(vals & ATOM_TAGS)), ctx.where(DB, bb), key='TABLE:%s:atom-tags-without-cache-ref' % p_)
+    ctx.anchor(n_disp >= 1, DEC + ': tag dispatch listing the atom tags')
 
     # ---------------- clause 6: fragment-header consumer ---------------------------------------------------------------
     ctx.rule('C14.6-fragment-header-section', 'after a fragment header the atom-cache section has the same layout as in a distribution header (u8 n, n/2+1 flag bytes, n entries); treating n as a byte length is wrong', floor=1)
